@@ -19,6 +19,7 @@ package concurrent
 
 import (
 	"context"
+	"errors"
 	"sync"
 	"time"
 
@@ -41,11 +42,15 @@ const (
 	sleepInterval = time.Millisecond * 5
 )
 
+// errPoolStopped is handed to a task's panicHandle when the task is submitted to a stopped pool.
+var errPoolStopped = errors.New("worker pool is stopped")
+
 // Task represents a task function to be executed by a worker(goroutine).
 type Task struct {
 	// handle executes task function.
 	handle func()
-	// panicHandle executes callback if task happens panic.
+	// panicHandle executes callback if task happens panic,
+	// or if the pool does not accept the task(pool stopped, context done).
 	panicHandle func(err error)
 
 	createTime time.Time
@@ -127,14 +132,27 @@ func NewPool(name string, maxWorkers int, idleTimeout time.Duration, statistics 
 }
 
 func (p *workerPool) Submit(ctx context.Context, task *Task) {
-	if task.handle == nil || p.Stopped() {
+	if task.handle == nil {
+		return
+	}
+	if p.Stopped() {
+		p.reject(task, errPoolStopped)
 		return
 	}
 	select {
 	case <-ctx.Done():
 		p.statistics.TasksRejected.Incr()
+		p.reject(task, ctx.Err())
 		return
 	case p.tasks <- task:
+	}
+}
+
+// reject tells the task's handler that the task is not accepted and will never be executed,
+// so that whoever waits for the task's outcome does not wait forever.
+func (p *workerPool) reject(task *Task, err error) {
+	if task.panicHandle != nil {
+		task.panicHandle(err)
 	}
 }
 
